@@ -153,12 +153,42 @@ pub fn mutex_lock<T: ?Sized>(m: &std::sync::Mutex<T>) -> std::sync::LockResult<s
         Ok(g) => Ok(g),
         Err(std::sync::TryLockError::Poisoned(p)) => Err(p),
         Err(std::sync::TryLockError::WouldBlock) => {
+            // a reader suspended inside get_state() (S-read-hold) holds the state lock: the
+            // waiting context lets it finish its clone, then takes the lock
+            if holder_release() {
+                if let Ok(g) = m.try_lock() {
+                    return Ok(g);
+                }
+            }
             if unsafe { IN_UNIT && !UNIT_IS_AWAITED } {
                 // a unit placed by the schedule at a point where the suspended host holds the
                 // lock it needs: the unit is simply not enabled here (DESIGN.md §4.4)
                 kani::assume(false);
             }
             panic!("VERIF-DEADLOCK: lock() on a mutex that is already held by a suspended context")
+        }
+    }
+}
+
+/// S-read-hold: the state lock held by a reader that is suspended inside `get_state()`
+/// (between acquiring the lock and finishing the clone of the state)
+pub static mut HELD_STATE: Option<std::sync::MutexGuard<'static, super::script::St>> = None;
+pub static mut HELD_READ: super::script::St = super::script::St { val: 0, seq: 0 };
+pub static mut HELD_WAITED: u8 = 0;
+pub trait ReaderProbe {
+    fn reader_enters_get_state(&self) -> Option<std::sync::MutexGuard<'static, super::script::St>>;
+}
+/// the suspended reader finishes: reads the value under the lock, releases it
+pub fn holder_release() -> bool {
+    unsafe {
+        match HELD_STATE.take() {
+            Some(g) => {
+                HELD_READ = *g;
+                HELD_WAITED += 1;
+                drop(g);
+                true
+            }
+            None => false,
         }
     }
 }
